@@ -114,6 +114,23 @@ class Prov:
             return "data" if "data" in (a, b) else (a or b)
         if isinstance(e, ast.UnaryOp):
             return self.of(e.operand)
+        if isinstance(e, (ast.GeneratorExp, ast.ListComp, ast.SetComp)) and len(e.generators) == 1 and isinstance(e.generators[0].target, ast.Name):
+            # any(f(v) for v in (wspd, wdir, dpt)): the loop variable has the provenance of the elements it ranges over
+            g = e.generators[0]
+            tv = g.target.id
+            saved = self.env.get(tv)
+            itp = self.of(g.iter)
+            if itp is not None:
+                self.env[tv] = itp
+            try:
+                return self.of(e.elt)
+            finally:
+                if saved is None:
+                    self.env.pop(tv, None)
+                else:
+                    self.env[tv] = saved
+        if isinstance(e, ast.Compare) and all(isinstance(o, (ast.Is, ast.IsNot)) for o in e.ops):
+            return None          # identity tests (x is None) look at the object, not at its values
         if isinstance(e, ast.Compare):
             ps = [self.of(e.left)] + [self.of(c) for c in e.comparators]
             return "data" if "data" in ps else next((p for p in ps if p), None)
@@ -142,6 +159,8 @@ class Prov:
                         return None
                     return "data"
             ps = [self.of(a) for a in e.args] + [self.of(k.value) for k in e.keywords]
+            if nm in ("any", "all") and e.args and isinstance(e.args[0], (ast.GeneratorExp, ast.ListComp)):
+                return self.of(e.args[0])
             if nm in ("len", "range", "isinstance", "str", "list", "sorted", "set", "getattr", "any", "all") :
                 return None
             if "data" in ps:
